@@ -34,16 +34,19 @@ SecCh(k) == CASE k = "anon" -> [security |-> ListOf(<<Req(<<>>)>>)]
 SecDef(n) == Mk(("in" :> "header") @@ [type |-> "apiKey", name |-> n], <<>>)
 
 QParam(n, loc) == Mk(("in" :> loc) @@ [name |-> n, type |-> "string"], <<>>)
-ParamKinds == {"inline", "same", "ref", "dangling", "notparam"}
+ParamKinds == {"inline", "same", "ref", "dangling", "notparam", "lookalike"}
 ParamOf(k, lvl) ==
   CASE k = "inline"   -> QParam(IF lvl = "path" THEN "limit" ELSE "offset", "query")
     [] k = "same"     -> QParam("id", "path")              \* the same (in, name) at both levels: the operation's must win
     [] k = "ref"      -> Mk(("$ref" :> <<"root", "parameters", "N_1">>), <<>>)
     [] k = "dangling" -> Mk(("$ref" :> <<"root", "parameters", "doesNotExist">>), <<>>)
     [] k = "notparam" -> Mk(("$ref" :> <<"root", "definitions", "N_2">>), <<>>)
+    \* resolves to something that is not a parameter although it has a name and a location (a security scheme)
+    [] k = "lookalike" -> Mk(("$ref" :> <<"root", "securityDefinitions", "k1">>), <<>>)
 ParamLists == {<<>>} \cup { <<a>> : a \in ParamKinds } \cup { <<a, b>> : a \in ParamKinds, b \in {"inline", "dangling", "ref"} }
 PList(s, lvl) == IF s = <<>> THEN <<>> ELSE [parameters |-> ListOf([i \in DOMAIN s |-> IF s[i] = "same" /\ lvl = "op" THEN [ParamOf("same", lvl) EXCEPT !.at = [type |-> "integer"] @@ @] ELSE ParamOf(s[i], lvl)])]
-SharedP == [parameters |-> Mk(<<>>, [N_1 |-> QParam("filter", "query")]), definitions |-> Mk(<<>>, [N_2 |-> Mk([type |-> "object"], <<>>)])]
+SharedP == [parameters |-> Mk(<<>>, [N_1 |-> QParam("filter", "query")]), definitions |-> Mk(<<>>, [N_2 |-> Mk([type |-> "object"], <<>>)]),
+            securityDefinitions |-> Mk(<<>>, [k1 |-> SecDef("X-1")])]
 
 PRef(pr) == IF pr THEN ("$ref" :> <<"root", "x-shared", "items">>) ELSE <<>>
 Docs ==
